@@ -11,7 +11,7 @@ import sys
 import time
 
 VERIF = os.path.dirname(os.path.dirname(os.path.abspath(__file__)))
-PY = "/venv/bin/python"
+PY = "/venv/bin/python3"  # the interpreter path the console scripts use: sys.executable ends up in build.ninja
 NPROC = int(os.environ.get("VERIF_NPROC", "16"))
 
 
